@@ -54,7 +54,7 @@ class C10(Check):
         rng = np.random.default_rng([seed, 10])
         for i in range(n):
             yield dict(seed=seed * 100003 + i, closed=["left", "right"][i % 2], workers=2 if (i // 2) % 4 == 0 else 1,
-                       edges=str(rng.choice(["linear", "irregular", "narrow", "one_bin", "many"], p=[0.24, 0.24, 0.24, 0.22, 0.06])),
+                       edges=str(rng.choice(["linear", "irregular", "narrow", "one_bin", "many", "from_zero"], p=[0.20, 0.20, 0.20, 0.18, 0.06, 0.16])),
                        weighted=bool(rng.random() < 0.5),
                        empty=str(rng.choice(["none", "patch_outside", "bin_empty", "all_outside"], p=[0.5, 0.2, 0.2, 0.1]))
                        if i % 7 else ["patch_on_zmax", "patch_on_zmin"][(i // 14) % 2])
@@ -77,7 +77,13 @@ class C10(Check):
         if case["edges"] == "many":  # more bins than a one-byte bin index can hold
             nb = int(rng.integers(257, 330))
         edges = gen.gen_edges(rng, nb, "linear" if case["edges"] in ("one_bin", "many") else case["edges"])
-        edges = edges + 0.01  # keep redshifts positive
+        if case["edges"] == "from_zero":
+            # the lowest edge is exactly 0 and the sample holds non-positive redshifts (noise below zero, -99 "no
+            # redshift" flags): they lie outside [0, ..) / (0, ..] like any other value below zmin, 0.0 itself is on the edge
+            nb = int(rng.integers(1, 6))
+            edges = np.concatenate([[0.0], np.cumsum(rng.uniform(0.05, 0.6, nb))])
+        else:
+            edges = edges + 0.01  # keep redshifts positive
         closed = case["closed"]
         P = int(rng.integers(1, 5))
         r = np.deg2rad(0.4)
@@ -89,6 +95,9 @@ class C10(Check):
         z = lattice(rng, edges, n)[:n]
         if len(z) < n:
             z = np.concatenate([z, rng.choice(z, n - len(z))])
+        if case["edges"] == "from_zero":
+            k = max(3, n // 4)
+            z[rng.choice(n, k, replace=False)] = rng.choice([-99.0, -1e-3, -0.0, 0.0, -5e-324, 5e-324, -0.3], k)
         if case["empty"] == "patch_outside":
             z[src == 0] = edges[-1] + 0.5 + rng.uniform(0, 0.1, int((src == 0).sum()))
         elif case["empty"] == "bin_empty" and nb > 1:
@@ -117,7 +126,10 @@ class C10(Check):
         with Scratch("c10") as tmp:
             cobj = cats.coords_obj(centres)
             ref = cats.create(tmp / "ref", cats.table(ra, dec, w=w, z=z), centers=cobj)
-            rec = cats.records(ref)
+            # the rule is applied to the redshifts as given (not to what the cache holds): an object's bin is a
+            # function of its input redshift; patch membership = nearest centre (margin by construction)
+            pid_in, _margin = cats.nearest_centre(xyz, centres)
+            rec = dict(z=np.asarray(z, dtype=float), w=w, pid=pid_in)
             ww = np.ones(len(rec["z"])) if rec["w"] is None else rec["w"]
             members = bin_members(rec["z"], edges, closed)
             want_w = np.array([[ww[m & (rec["pid"] == p)].sum() for p in range(P)] for m in members])  # (nb, P)
